@@ -1,6 +1,7 @@
 """C08 - Region containment is geometrically exact and equivariant under move/rotate/copy."""
 import math
 import numpy as np
+import z3
 
 from vtools.runner import Harness
 
@@ -404,6 +405,9 @@ def install_path_stub():
                     cond = sc.ite(dy > 0, lhs < rhs, lhs > rhs)
                     acc = acc ^ (straddle & cond)
                 out[k] = acc
+            if all(sc.is_t(z3.simplify(o.t)) or sc.is_f(z3.simplify(o.t)) for o in out):
+                # nothing symbolic was involved after all (operands lifted into the shim by an earlier call): plain booleans
+                return np.array([sc.is_t(z3.simplify(o.t)) for o in out], dtype=bool)
             return sn.wrap(out)
 
     mpath.Path = StubPath
